@@ -11,7 +11,7 @@ L& = 2147483647
 I% = -32768
 Q! = 2.5
 PRINT "ab" ;
-PRINT CR$
+PRINT "ab" ,
 PRINT , "|"
 LPRINT , "|"
 PRINT #1, , "|"
